@@ -95,9 +95,8 @@ def run_history(spec, ops, drv=None, hashes=None, chashes=None):
             if op["op"] == "bwd":
                 exp = exp + codec.enc_model(model)   # the driver also returns the restored structure
             if ans != " ".join(exp):
-                n = len(codec.enc_state(model, st))
                 toks = ans.split()
-                f = codec.diff_states(codec.dec_state(model, toks[:n]), st)
+                f = codec.diff_states(codec.dec_state(model, toks, allow_trailing=True), st)
                 if not f and op["op"] == "bwd":
                     f = ["structure"]
                 out["dis"].append(dict(phase="history:" + op["op"], fields=f, time=None, op_index=i))
